@@ -194,7 +194,7 @@ int main(int argc, char** argv)
 {
    if(argc < 6) { fprintf(stderr, "usage: params_drv <workload> <seed> <nexec> <len> <out>\n"); return 2; }
    unsigned long seed = strtoul(argv[2], nullptr, 10); int nexec = atoi(argv[3]), len = atoi(argv[4]);
-   T().open(argv[5]); installCrashHandlers();
+   T().open(argv[5]); setvbuf(T().f, nullptr, _IOLBF, 1 << 16); installCrashHandlers();
    Rng g(seed); g_fuzz = std::string(argv[1]) == "fuzz";
    std::string tmpdir = std::string(argv[5]) + ".d"; std::string cmd = "mkdir -p '" + tmpdir + "'"; if(system(cmd.c_str()) != 0) return 2;
    run(g, nexec, len, tmpdir);
